@@ -531,7 +531,7 @@ pub fn gen_sc(rng: &mut Rng, hostile: bool, multi: bool) -> Sc {
                     charge_not_included: not_included,
                     charge_zero_record,
                     reference: if hostile && rng.chance(1, 6) {
-                        Some(["a)b", "ref (1)", " padded ", "ref;1", "", "\u{3000}wide padded\u{3000}", "\u{a0}nbsp"][rng.usize(7)].to_string())
+                        Some(["a)b", "ref (1)", " padded ", "ref;1", "", "\u{3000}wide padded\u{3000}", "\u{a0}nbsp", "a(b", "((open"][rng.usize(9)].to_string())
                     } else if rng.chance(4, 5) {
                         Some(format!("20240131/{}/1", serial))
                     } else {
@@ -547,6 +547,13 @@ pub fn gen_sc(rng: &mut Rng, hostile: bool, multi: bool) -> Sc {
                     nested_party: rng.chance(1, 3),
                     reversal: false,
                 });
+            }
+            // a collective order: the bank repeats the entry's reference in every detail
+            if details.len() >= 2 && rng.chance(1, 5) {
+                let r = details[0].reference.clone();
+                for d in details.iter_mut() {
+                    d.reference = r.clone();
+                }
             }
             // a reversal inside a batch: one detail runs against the entry, the entry shows the net
             if details.len() >= 2 && rng.chance(1, 4) {
@@ -653,9 +660,13 @@ pub fn import_statement(sc: &Sc, k: usize, out: &mut RunOut, prefix: &str, rules
     files.insert(SOURCE.to_string(), xml.clone().into_bytes());
     let files = Rc::new(files);
     let no_faults = Default::default();
-    let today = Date::new(2024, 6, 15);
+    // the calendar date of each process lies inside the statement: on the booking date of one of
+    // its entries (a function of the tape), i.e. often between a booking date and a later value
+    // date - what a statement means does not depend on the day it is imported
+    let days: Vec<Date> = sc.statements[k].entries.iter().map(|e| e.booking).collect();
     let mut first: Option<Result<Imported, String>> = None;
     for (pi, p) in sc.procs.iter().enumerate() {
+        let today = if days.is_empty() { Date::new(2024, 6, 15) } else { days[(p.hash_seed % days.len() as u64) as usize] };
         out.set("hash_orders", hash_order_canary(p.hash_seed));
         if p.read_chunks.max > 0 {
             out.set("chunkings", crate::prng::mix(&[p.read_chunks.max as u64, p.read_chunks.seed]));
